@@ -32,10 +32,11 @@ lark reads it: contextual scanner with the per-state terminal order of the real 
 `DO` folded into `ID` and re-typed on a whole match, the merged scanner after every point / orientation / `DO` statement,
 ORIENTATION with look-ahead, NUMBER / SIGNED_NUMBER / STRING as their expressions; then `DefFile.ok` = the `int()` calls of
 `DefTransformer`): `def_text_roundtrip` — `parseDef (printDef f) = some f` for every valid syntax tree; `def_text_roundtrip_tree`
-(grammar alone), `def_text_valid_ok`.
+(grammar alone), `def_text_valid_ok`.  `DefFile.netsRouted` hands the ROUTED wires of every net to the routing model above.
 **Correspondence, text level (harness/c20.py, sampled):** the model reader (driver `defparse`) against the real lark grammar — parse
 tree with ALL tokens kept, every rule and every token text — and the real `def_file.parse` (accept / raise) on generated files,
-hand-written corner cases (missing blanks, `(10`, `NEWVIA`, `3;`, escaped strings, comments) and mutated texts.
+hand-written corner cases (missing blanks, `(10`, `NEWVIA`, `3;`, escaped strings, comments) and mutated texts; for generated
+files also the hand-over: `netsRouted` = the real `DefWire` records of every net.
 **Still trusted:** that lark implements the grammar as the hand-written reader does (LALR tables, `re` semantics) — checked by the
 text correspondence, not proved; the transformer's record building (attribute oracle above). -/
 namespace KV.C20
@@ -397,6 +398,15 @@ def exText : DefFile :=
 
 example : exText.valid = true := by decide +kernel
 example : parseDef (printDef exText) = some exText := def_text_roundtrip exText (by decide +kernel)
+
+/-- hand-over to the routing model: the ROUTED wires of regular net `n1` of `exText` as `KV.Def.Wire` records, and what
+the routing theorems above say about them (`*` resolved, third value carried, vias at the last point) -/
+def exRouted : Option (List Wire) := (exText.netsRouted.find? (·.2.1 == t "n1")).bind (·.2.2)
+example : exRouted.map (·.map (·.layer)) = some ["metal1", "metal2"]
+    ∧ exRouted.map (fun ws => (ws.headD default).wirePoints.map (fun p => (p.x, p.y))) = some [(0, 0), (5, 0), (5, 0)]
+    ∧ exRouted.map netViasD
+      = some [("via1_0", [(5, 0, "FS")]), ("v3", [(5, 0, "N")]), ("v4", [(5, 0, "N")]), ("v2", [(1, 1, "N")])] := by
+  decide +kernel
 
 /-- the reader on texts the printer does not produce: no blank before `;` after a NUMBER, a comment, `(10` after a point
 is a via name (`(` is folded into `ID`), `NEWVIA` is a name, an orientation needs white space behind it -/
